@@ -81,6 +81,8 @@ type Plan struct {
 	KillBefore int `json:"kill_before,omitempty"` // SIGKILL self just before the k-th Mutate (1-based) reaches RocksDB
 	KillAfter  int `json:"kill_after,omitempty"`  // SIGKILL self right after the k-th Mutate returned from RocksDB
 	Gate       int `json:"gate,omitempty"`        // park the k-th Mutate until released
+	KillDuring  int `json:"kill_during,omitempty"`   // SIGKILL self KillDelayUs microseconds after the k-th Mutate entered RocksDB (aimed inside the store write)
+	KillDelayUs int `json:"kill_delay_us,omitempty"`
 	FailAt     int `json:"fail_at,omitempty"`     // the k-th Mutate writes nothing and returns an I/O error (disk full, bad sector)
 }
 
